@@ -2,7 +2,7 @@
    proofs in Dad/ShortCircuitProofs.v. *)
 From Coq Require Import ZArith List Bool.
 Require Import V.Lib.Val V.Lib.Result V.Dad.ShortCircuitModel V.Dad.ShortCircuitProofs V.Dad.ShortCircuitGraph.
-Require V.Dad.ShortCircuitDriver.   (* the stream chains of tools/props/c25.py evaluates the model of the driver *)
+Require Import V.Dad.ShortCircuitDriver V.Dad.ShortCircuitSound.   (* the stream chains of tools/props/c25.py evaluates the model of the driver *)
 Import ListNotations.
 Open Scope Z_scope.
 
@@ -64,3 +64,21 @@ Theorem C25_visible_predecessors_are_not_enough :
   walk 5 (merge w_graph 1 2 3 (SC (Leaf 1 false) (Leaf 2 false) true true) 102 100 true [100; 102]) (fun _ => true) 0 = Some 100 /\
   apply_plan w_graph 1 3 AndElse = None.
 Proof. exact visible_predecessors_are_not_enough. Qed.
+
+(* ---- the passes of short_circuit_struct as a whole ---- *)
+(* the model of the driver (post order, the four cases tried in the order of the code, the merged block given a fresh id, the passes
+   repeated until nothing changes; it is run against the real short_circuit_struct by the stream chains) started on ANY graph whose
+   edge lists agree with its pointers, with unused ids from m on and an entry no block points at: whatever it merges, in however many
+   passes, a walk from the entry of the result ends at an exit exactly when a walk from the entry of the original ends there.
+   The invariants (edges_ok, the unused ids, the entry without predecessors) are shown to be kept from one merge to the next. *)
+Theorem C25_the_passes_keep_every_walk : forall fuel g m e, edges_ok g -> unused_from g m -> no_pred g e -> e < m ->
+  same_walks g e (fst (struct fuel g m e)) (snd (struct fuel g m e)).
+Proof. exact struct_keeps_walks. Qed.
+Print Assumptions C25_the_passes_keep_every_walk.
+(* the graphs of the chains the stream runs meet the first hypothesis, and a chain with a block marked as handler code meets all *)
+Theorem C25_chain_graphs_have_their_edges : forall spec, edges_ok (chain_graph spec).
+Proof. exact chain_edges_ok. Qed.
+Example C25_the_passes_nonvacuous :
+  edges_ok (chain_graph d41_spec) /\ unused_from (chain_graph d41_spec) 3 /\ no_pred (chain_graph d41_spec) 0 /\
+  snd (struct 4 (chain_graph d41_spec) 3 0) = 4.
+Proof. destruct d41_hypotheses as (A & B & C). destruct d41_merged as (_ & D). auto. Qed.
